@@ -28,6 +28,10 @@ def run_one(spec, timeout=120.0):
     """Executed in a supervisor: fork one pristine run child."""
     fn, cold_fn = _target(spec["prop"])
     tag, payload = core.run_child(fn, (spec,), timeout, cold_fn=cold_fn)
+    if tag == "timeout":
+        # a run is a pure function of its spec: on a saturated machine the wall limit may hit a healthy run, so
+        # it is executed once more with a longer limit before the time-out is declared a harness error
+        tag, payload = core.run_child(fn, (spec,), timeout * 4, cold_fn=cold_fn, cold_timeout=120.0)
     if tag == "ok":
         return payload
     return {"harness_error": f"{tag}: {payload}", "seed": spec["seed"], "run": spec["run"], "prop": spec["prop"]}
